@@ -86,7 +86,7 @@ PROPS["C01"] = {
     "k_budget": {"quick": {"jobs": 2, "timeout_s": 1200, "mem_gb": 14}, "thorough": {"jobs": 4, "timeout_s": 10800, "mem_gb": 30}},
 }
 PROPS["C02"] = {
-    "engine": "mir-bmc + kani-real", "technique": _M_TECH,
+    "engine": "mir-bmc", "technique": _M_TECH,
     "bounds": "engine M: linearizability by symbolic enumeration of all program-order-respecting total orders (<= 6 operations incl. the drain), real-time order from the first/last visible step of every call; BUFFER_SIZE 2 (quick) / 4 (thorough); origin any u32",
     "outside": "histories with more than 6 operations; BUFFER_SIZE > 4; orderings weaker than SC; crossbeam channel (sequential K scripts only)",
     "assumptions": [_M_NOTE, "capacity rule as in the statement: a rejected send is explained when (events in the queue) + (calls in progress during the send) >= BUFFER_SIZE at its linearization point; an empty answer needs an empty queue at its linearization point"],
